@@ -256,6 +256,16 @@ def run_cases(cases):
                     'altered' if nfr == 1 else 'frags')
             cnt('outcome:' + kind)
             cnt('crc:%d%d%d' % tuple(b for b in (spec['crc'], ([b['crc'] for b in spec['blocks'] if b['num'] == 1] + [0])[0], spec['blocks'][0]['crc'] if spec['blocks'] else 0)))
+            if kind == 'frags':
+                for o in routs:
+                    try:
+                        fp = [b for b in fl.read_bundle(o)['blocks'] if b['num'] == 1][0]['btsd']
+                    except Exception:
+                        continue
+                    n = len(fp or b'')
+                    for B in BOUNDS:
+                        if B - 3 <= n <= B + 3:
+                            cnt('fragment-payload-len:%d%+d' % (B, n - B) if n != B else 'fragment-payload-len:%d' % B)
             cnt('nfrag:%s' % ('0' if nfr == 0 else '1' if nfr == 1 else '2-3' if nfr < 4 else '4-15' if nfr < 16 else '16+'))
             cnt('L:%s' % ('<24' if L < 24 else '<256' if L < 256 else '<65536' if L < 65536 else '>=65536'))
             cnt('wire' if spec.get('wire') else 'local')
@@ -320,6 +330,34 @@ def gen_cases(chk):
     return cases, skipped
 
 
+def frag_boundary_cases(chk):
+    ''' MTUs chosen so that the payload carried by ONE FRAGMENT (not the total) sits on a CBOR head boundary:
+    the first fragment's budget is B+d octets, d in a window around 0, for B = 24, 256, 65536, with totals of
+    1, 2 and 2.3 times B more (so the later fragments, whose budgets shrink with the offset head, cross it too).
+    The budget formula reserves head(total); a fragment's own head is head(fragment payload) — they differ
+    exactly across these boundaries. Large payloads are all-zero octets (cheap to build and encode). '''
+    quick = chk.tier == 'quick'
+    rng = chk.rng
+    ds = range(-3, 4) if quick else range(-10, 11)
+    out = []
+    for B in BOUNDS:
+        Ls = [B + 40, 2 * B + 7, 2 * B + B // 3 + 11]
+        if B == 65536:
+            Ls.append(150000)
+        for L in Ls:
+            for _ in range(1 if quick else 3):
+                spec = mk_spec(L, rng.choice(CRCS), rng.randrange(4), flags=rng.choice([0, 0x40]),
+                               wire=(rng.random() < 0.2), salt=rng.randrange(250))
+                if L > 4096:
+                    for b in spec['blocks']:
+                        if b['num'] == 1:
+                            b['btsd'] = '00' * L
+                orig = est_size(spec)
+                over0 = orig - L + 1 + fl.head_len(L)      # empty first fragment - 1 + head(total)
+                out.append((spec, [over0 + B + d for d in ds]))
+    return out
+
+
 def est_size(spec):
     ''' encoded size of the bundle by independent arithmetic (to choose MTUs before running) '''
     h = fl.head_len
@@ -344,7 +382,7 @@ def run(chk):
     chk.prove('DtnVerif.Props.C05')
     chk.cov['rule'] = ('(payload length, MTU) windows ±%d around the CBOR head boundaries 23/24, 255/256, 65535/65536 '
                        '(payload length; MTU = fits boundary, feasibility boundary, fragment budgets at the head boundaries, '
-                       'absolute boundaries) × CRC type triples × 5 extension-block sets (replicate / not / after payload) × '
+                       'absolute boundaries; plus MTUs putting a single fragment\'s payload length B+d on each boundary B) × CRC type triples × 5 extension-block sets (replicate / not / after payload) × '
                        'locally built vs decoded-from-wire containers × NO_FRAGMENT / IS_FRAGMENT flags; plus malformed stream'
                        % (3 if chk.tier == 'quick' else 40))
     chk.assumptions += [
@@ -368,6 +406,10 @@ def run(chk):
         if L > 60000 and not quick:
             ms = [m for i, m in enumerate(ms) if i % 3 == chk.seed % 3 or abs(m - orig) <= 2]
         cases.append((spec, ms))
+    nb = frag_boundary_cases(chk)
+    cases += nb
+    chk.count('fragment-payload-on-head-boundary:specs', len(nb))
+    chk.count('fragment-payload-on-head-boundary:sends', sum(len(m) for _s, m in nb))
     # fixed cases: Lean witnesses, malformed stream
     P = bytes(range(100)).hex()
     base = {'flags': 0, 'crc': 1, 'dest': 'dtn://dst/svc', 'src': 'dtn://src/', 'rpt': None, 'time': 1000, 'seq': 5,
